@@ -306,7 +306,7 @@ pub fn summarize(w: &World, plan: &Plan) -> serde_json::Value {
         .collect();
     let log: Vec<String> = w.log.iter().take(400).map(ev_to_string).collect();
     serde_json::json!({
-        "type": plan.type_name, "align": plan.align, "max_msg_len_send": plan.max_send, "max_msg_len_recv": plan.max_recv,
+        "type": plan.type_name, "align": plan.align, "max_msg_len_send": plan.max_send, "max_msg_len_recv": plan.max_recv, "send_buffer_capacity": plan.send_cap, "recv_buffer_capacity": plan.recv_cap,
         "knobs": w.knobs, "messages": msgs, "send_attempts": attempts, "recv_calls": recvs,
         "sink_len": w.pipe.sink.len(), "delivered": w.pipe.delivered_total, "events": log, "events_total": w.log.len(),
     })
